@@ -142,7 +142,8 @@ func newXSim(name string, cat *catalog, window int) (*xsim, error) {
 		pre[o.To] = new(big.Int).Mul(big.NewInt(o.Amt), amtScale).String()
 		order = append(order, o.To)
 	}
-	g := fx.Genesis(fx.GenesisOpts{Predist: pre, PredistList: order, Award: new(big.Int).Mul(big.NewInt(cat.Award), amtScale).String(), Window: window, Miner: "m"})
+	g := fx.Genesis(fx.GenesisOpts{Predist: pre, PredistList: order, Award: new(big.Int).Mul(big.NewInt(cat.Award), amtScale).String(), Window: window, Miner: "m",
+		NoDecay: amtScale.Cmp(big.NewInt(1)) != 0}) // CalcAward's decay path works on int64: scaled awards need the exact path
 	s := &xsim{cat: cat, name: name, window: window, genesis: g, txs: map[string]*pb.Transaction{}, names: map[string]string{},
 		ids: map[string]int{}, blocks: map[int]*pb.InternalBlock{}, n: 1, recover: make(chan struct{}, 16)}
 	node, err := fx.NewNode(name, g)
